@@ -39,6 +39,11 @@ def array_programs(seed, n, syms=gen.SYMS, tids=None):
         rank = rng.randint(1, 3)
         dtype = rng.choice(["float64", "complex128", "float32"])
         x = gen.rand_array(rng, sym, rank, "abelian", dtype=dtype, sparse=0.5, unit_prob=0.2)
+        if rng.random() < 0.3:
+            # one axis with a SINGLE charge (zero) but more than one element: not a unit axis
+            ixs = [dict(ix) for ix in x["ix"]]
+            ixs[rng.randrange(rank)] = {"dual": rng.random() < 0.5, "cm": [{"c": [0, 0], "d": rng.randint(2, 3)}]}
+            x = gen.rand_array(rng, sym, rank, "abelian", ixs=ixs, dtype=dtype, sparse=0.4)
         # partner with the same indices/charge but a different set of stored sectors
         y = dict(x)
         nsec = len(gen.D.valid_sectors(sym, x["ix"], tuple(x["charge"])))
@@ -60,7 +65,8 @@ def array_programs(seed, n, syms=gen.SYMS, tids=None):
         if unit0:
             three(steps, "squeeze", ["x"], {"axis": [rng.choice(unit0)]}, "sq")
             steps.append({"op": "squeeze", "in": ["x"], "out": ["sqi"], "args": {"axis_int": unit0[0]}})
-        if units and units == unit0:
+        if units == unit0:
+            # (also when there is nothing to squeeze: the result is then the array itself)
             three(steps, "squeeze", ["x"], {"axis_none": True}, "sqa")
         three(steps, "squeeze", ["ex_m"], {"axis": [ax]}, "sqe")
         k = rng.choice([2, 3, -2])
